@@ -56,6 +56,10 @@ Deliverables, all in `{W}/out/`:
   exactly is needed for the violation to manifest>", "files_changed": [...], "ran": ["<commands you ran and their
   outcome: demo without change, demo with change, test suite with change>"]}}
 
+Other agents work in sibling worktrees of the same repository at the same time: NEVER use `git stash` (the stash is
+shared by all worktrees) - to test on the unmodified tree use `git diff > out/patch.diff; git apply -R out/patch.diff;
+...; git apply out/patch.diff`. NEVER use `pkill`/`killall` (kill only PIDs you started yourself).
+
 Verify all three claims yourself (demo passes without, fails with, test suite passes with) before finishing.
 Leave the worktree with the change applied. Final answer: a 5-line summary.
 """
